@@ -48,6 +48,8 @@ from sim import tcpserver as simtcpserver  # noqa: E402
 # the TCP interface of a node binds and accepts on the simulated network; DualStackTCPServer was derived from the
 # real socketserver class at import time: give it the simulated base class
 _tcpiface.socketserver = simtcpserver.shim
+# (tcp.py does not use select; a change which makes it do so gets the simulated one)
+_tcpiface.select = simnet.select_shim
 _tcpiface.DualStackTCPServer.__bases__ = (simtcpserver.ThreadingTCPServer,)
 frappy.server.signal = types.SimpleNamespace(
     signal=lambda *a: None, SIGINT=2, SIGTERM=15, default_int_handler=lambda *a: None)
